@@ -844,3 +844,171 @@ package tchannel
 //@   ensures old(w.state) == fragmentingWriteInArgument && nflushed(w.sender) > old(nflushed(w.sender)) ==> lastmore(w.sender) == 1
 //@   ensures w.sender == old(w.sender) && w.checksum == old(w.checksum)
 //@   property C01 C02 C10
+
+// ===========================================================================
+// fragmenting_reader.go / reqres.go -- reader side (C01, C02, C03, C12)
+// ===========================================================================
+
+// RF: what the reader may assume of a fragment handed to it.
+//@ pred RF(f *readableFragment) := f != nil && f.contents != nil && f.onDone != nil && f.checksumType < 4 && (f.contents.err == nil || f.contents.err == typed.ErrEOF) &&
+//@        len(f.checksum) == f.checksumType.ChecksumSize()
+
+//@ functype onDoneFunc()
+//@   modifies all
+//@ funcfield readableFragment.onDone()
+//@   modifies allbut fragmentingReader, readableFragment, cs, nrecv
+
+//@ ghostfield nrecv
+//@ iface fragmentReceiver.recvNextFragment(intial bool) (f *readableFragment, err error)
+//@   modifies allbut fragmentingReader, cs
+//@   ensures err == nil ==> RF(f) && !f.isDone
+//@   ensures nrecv(self) == old(nrecv(self)) + 1
+//@   label receivers-never-report-io.EOF
+//@   ensures err != io.EOF
+//@ iface fragmentReceiver.doneReading(unexpectedErr error)
+//@   modifies allbut fragmentingReader, readableFragment, cs, nrecv
+
+// done: the release callback runs at most once per fragment.
+//@ func (f *readableFragment) done()
+//@   requires f.onDone != nil
+//@   modifies allbut fragmentingReader, cs, nrecv
+//@   ensures f.isDone
+//@   property C12 C01
+
+// parseInboundFragment: flags, message, checksum type and bytes; unknown
+// checksum types and truncated frames are errors (never a panic), decoding
+// stays inside the declared payload size.
+//@ func parseInboundFragment(framePool FramePool, frame *Frame, message message) (fragment *readableFragment, err error)
+//@   requires FrameFull(frame) && frame.Header.size >= 16 && message != nil
+//@   modifies all
+//@   label unknown-checksum-type-rejected
+//@   ensures err == nil ==> RF(fragment) && !fragment.isDone
+//@   label contents-inside-declared-payload
+//@   ensures err == nil ==> typed.Suffix(fragment.contents.remaining, frame.Payload[:frame.Header.size - 16]) && fragment.contents.err == nil
+//@   property C03 C02 C06 C12
+
+// chunk0off/chunk0len: position and length of the first chunk of a parsed
+// fragment (ghost, defined where the fragment is parsed).
+//@ ghost func chunk0off(f *readableFragment) int
+//@ ghost func chunk0len(f *readableFragment) int
+
+// recvAndParseNextFragment: on success the fragment has the message's checksum
+// type, its checksum bytes equal the running checksum after folding in every
+// chunk of the fragment, it carries at least one chunk, and the current chunk
+// is its first chunk. Any mismatch is an error; a checksum mismatch is latched.
+//@ func (r *fragmentingReader) recvAndParseNextFragment(initial bool) (err error)
+//@   requires r.receiver != nil && r.err != io.EOF
+//@   requires r.curFragment != nil ==> r.curFragment.onDone != nil
+//@   modifies all
+//@   ensures old(r.err) != nil ==> err == old(r.err)
+//@   label fetches-exactly-one-fragment
+//@   ensures old(r.err) == nil ==> nrecv(r.receiver) == old(nrecv(r.receiver)) + 1
+//@   ensures old(r.err) != nil ==> nrecv(r.receiver) == old(nrecv(r.receiver))
+//@   ensures err != io.EOF
+//@   label checksum-type-constant-across-fragments
+//@   ensures err == nil ==> r.checksum != nil && tcode(r.checksum) == r.curFragment.checksumType
+//@   ensures err == nil && old(r.checksum) != nil ==> r.checksum == old(r.checksum)
+//@   label checksum-verified
+//@   ensures err == nil && len(r.curFragment.checksum) == 4 ==> be32(r.curFragment.checksum, 0) == cssum(cs(r.checksum))
+//@   label every-chunk-folded-into-checksum
+//@   loop 0 step cs(r.checksum) == csupd(prev(cs(r.checksum)), chunkData) && r.checksum == prev(r.checksum)
+//@   label each-chunk-appended-in-order
+//@   loop 0 step len(r.remainingChunks) == prev(len(r.remainingChunks)) + 1 && r.remainingChunks[len(r.remainingChunks)-1] == chunkData
+//@   label chunk-parse-loop-terminates
+//@   loop 0 decreases ite(r.curFragment.contents.err == nil, 1 + len(r.curFragment.contents.remaining), 0)
+//@   label chunks-are-consecutive
+//@   ensures err == nil && len(r.remainingChunks) > 0 ==> off(r.remainingChunks[0]) == off(r.curChunk) + len(r.curChunk) + 2 && arr(r.remainingChunks[0]) == arr(r.curChunk)
+//@   loop 0 invariant r.curFragment.contents.err == nil && len(r.remainingChunks) >= 2 ==> off(r.remainingChunks[1]) == off(r.remainingChunks[0]) + len(r.remainingChunks[0]) + 2 && arr(r.remainingChunks[1]) == arr(r.remainingChunks[0])
+//@   loop 0 invariant r.curFragment.contents.err == nil && len(r.remainingChunks) == 1 ==> off(r.curFragment.contents.remaining) == off(r.remainingChunks[0]) + len(r.remainingChunks[0]) && arr(r.curFragment.contents.remaining) == arr(r.remainingChunks[0])
+//@   label at-least-one-chunk
+//@   ensures err == nil ==> RF(r.curFragment) && r.curFragment.onDone != nil && r.err == nil
+//@   defines err == nil ==> chunk0off(r.curFragment) == off(r.curChunk) && chunk0len(r.curFragment) == len(r.curChunk)
+//@   ensures r.receiver == old(r.receiver) && r.state == old(r.state)
+//@   loop 0 invariant r.curFragment != nil && r.curFragment.contents != nil && r.checksum != nil && r.receiver == old(r.receiver) && r.state == old(r.state)
+//@   loop 0 invariant RF(r.curFragment) && tcode(r.checksum) == r.curFragment.checksumType && r.err == nil
+//@   loop 0 invariant old(r.checksum) != nil ==> r.checksum == old(r.checksum)
+//@   property C01 C02 C03 C12
+
+// FRfrag: the reader holds a parsed fragment.
+//@ pred FRfrag(r *fragmentingReader) := r.receiver != nil && r.curFragment != nil && r.curFragment.onDone != nil
+
+//@ func (r *fragmentingReader) BeginArgument(last bool) (err error)
+//@   requires r.receiver != nil
+//@   requires r.curFragment != nil ==> r.curFragment.onDone != nil
+//@   modifies all
+//@   label errors-are-sticky
+//@   ensures old(r.err) != nil ==> err == old(r.err)
+//@   label no-argument-after-complete
+//@   ensures old(r.err) == nil && (old(r.state) == fragmentingReadComplete || old(r.state) == fragmentingReadInArgument || old(r.state) == fragmentingReadInLastArgument) ==> err != nil
+//@   ensures err == nil ==> (last ==> r.state == fragmentingReadInLastArgument) && (!last ==> r.state == fragmentingReadInArgument) && r.err == nil
+//@   ensures err == nil && old(r.state) == fragmentingReadStart ==> FRfrag(r)
+//@   ensures err == nil && old(r.state) != fragmentingReadStart ==> r.curFragment == old(r.curFragment) && r.curChunk == old(r.curChunk) && r.remainingChunks == old(r.remainingChunks)
+//@   ensures r.receiver == old(r.receiver)
+//@   property C01 C03
+
+// Read never crosses an argument boundary: it reports end-of-argument (io.EOF)
+// only when the current chunk is exhausted and either another chunk follows in
+// this fragment or no fragment follows; it fetches a fragment only when the
+// current chunk is exhausted, no chunk is left and more fragments are
+// announced; without a fetch the bytes returned are the next unread bytes of
+// the current chunk, in order.
+//@ func (r *fragmentingReader) Read(b []byte) (n int, err error)
+//@   requires r.receiver != nil && r.err != io.EOF
+//@   requires r.err == nil && (r.state == fragmentingReadInArgument || r.state == fragmentingReadInLastArgument) ==> FRfrag(r)
+//@   modifies all
+//@   label errors-are-sticky
+//@   ensures old(r.err) != nil ==> err == old(r.err) && n == 0
+//@   label read-only-inside-an-argument
+//@   ensures old(r.err) == nil && old(r.state) != fragmentingReadInArgument && old(r.state) != fragmentingReadInLastArgument ==> err != nil && n == 0
+//@   label full-read-on-success
+//@   ensures err == nil ==> n == len(b)
+//@   ensures 0 <= n && n <= len(b)
+//@   label eof-only-at-an-argument-end
+//@   ensures err == io.EOF ==> len(r.curChunk) == 0 && (len(r.remainingChunks) > 0 || !r.hasMoreFragments)
+//@   label fetch-only-when-chunk-and-fragment-exhausted
+//@   atcall recvAndParseNextFragment len(r.curChunk) == 0 && len(r.remainingChunks) == 0 && r.hasMoreFragments
+//@   label bytes-in-order-from-current-chunk
+//@   ensures nrecv(r.receiver) == old(nrecv(r.receiver)) && old(r.err) == nil && (err == nil || err == io.EOF) ==>
+//@             r.curChunk == old(r.curChunk)[n:] && r.remainingChunks == old(r.remainingChunks) && samebytes(old(b), 0, old(r.curChunk), 0, n)
+//@   ensures r.state == old(r.state) || err != nil
+//@   ensures r.receiver == old(r.receiver)
+//@   loop 0 invariant r.receiver == old(r.receiver) && FRfrag(r) && r.err == nil && r.state == old(r.state)
+//@   loop 0 invariant 0 <= totalRead && totalRead + len(b) == len(old(b)) && arr(b) == arr(old(b)) && off(b) == off(old(b)) + totalRead
+//@   loop 0 invariant nrecv(r.receiver) >= old(nrecv(r.receiver))
+//@   loop 0 invariant nrecv(r.receiver) == old(nrecv(r.receiver)) ==> samebytes(old(r.curChunk), 0, old(r.curChunk), 0, len(old(r.curChunk)))
+//@   loop 0 invariant nrecv(r.receiver) == old(nrecv(r.receiver)) ==> totalRead == 0 && r.curChunk == old(r.curChunk) && r.remainingChunks == old(r.remainingChunks) && r.curFragment == old(r.curFragment)
+//@   property C01 C03
+
+// Close ends the current argument.
+//  - unread bytes in the current chunk are an error (nothing is skipped);
+//  - last argument: success only when no chunk and no fragment remain;
+//  - otherwise exactly one argument boundary is crossed: either the next chunk
+//    of this fragment becomes current, or -- when this fragment is exhausted --
+//    fragments are fetched, each must start with an EMPTY chunk continuing the
+//    closed argument (else more-data error), and the chunk right after that
+//    empty chunk becomes current.
+//@ func (r *fragmentingReader) Close() (err error)
+//@   requires r.receiver != nil && r.err != io.EOF
+//@   requires r.err == nil && (r.state == fragmentingReadInArgument || r.state == fragmentingReadInLastArgument) ==> FRfrag(r)
+//@   modifies all
+//@   label errors-are-sticky
+//@   ensures old(r.err) != nil ==> err == old(r.err)
+//@   ensures old(r.err) == nil && old(r.state) != fragmentingReadInArgument && old(r.state) != fragmentingReadInLastArgument ==> err != nil
+//@   label unread-bytes-are-an-error
+//@   ensures old(r.err) == nil && len(old(r.curChunk)) > 0 ==> err != nil
+//@   label complete-only-at-the-true-end
+//@   ensures err == nil && old(r.state) == fragmentingReadInLastArgument ==>
+//@             len(old(r.remainingChunks)) == 0 && !old(r.hasMoreFragments) && r.state == fragmentingReadComplete
+//@   label next-chunk-of-same-fragment
+//@   ensures err == nil && old(r.state) == fragmentingReadInArgument && len(old(r.remainingChunks)) > 0 ==>
+//@             r.curChunk == old(r.remainingChunks)[0] && r.remainingChunks == old(r.remainingChunks)[1:] &&
+//@             r.curFragment == old(r.curFragment) && nrecv(r.receiver) == old(nrecv(r.receiver)) && r.state == fragmentingReadWaitingForArgument
+//@   label fetched-fragment-starts-with-empty-terminator-which-is-skipped
+//@   ensures err == nil && old(r.state) == fragmentingReadInArgument && len(old(r.remainingChunks)) == 0 ==>
+//@             old(r.hasMoreFragments) && nrecv(r.receiver) > old(nrecv(r.receiver)) && chunk0len(r.curFragment) == 0 &&
+//@             off(r.curChunk) == chunk0off(r.curFragment) + 2 && r.state == fragmentingReadWaitingForArgument
+//@   ensures err != nil && old(r.err) == nil ==> r.err == err
+//@   ensures r.receiver == old(r.receiver)
+//@   loop 0 invariant r.receiver == old(r.receiver) && r.state == fragmentingReadWaitingForArgument && r.err == nil
+//@   loop 0 invariant nrecv(r.receiver) >= old(nrecv(r.receiver)) && old(r.hasMoreFragments) && (r.curFragment != nil ==> r.curFragment.onDone != nil)
+//@   property C01 C03
